@@ -34,7 +34,9 @@ import re, sys
 
 KIND = {"VertexAnchor": "KVA", "EdgeAnchor": "KEA", "FaceAnchor": "KFA"}
 ERR = {"EdgeSwapError::NullEdge": "ESwapNullEdge", "EdgeSwapError::IncompleteEdge": "ESwapIncomplete",
-       "EdgeSwapError::BadTopology": "ESwapBadTopology"}
+       "EdgeSwapError::BadTopology": "ESwapBadTopology", "VertexInsertionError::VertexBound": "EVertexBound",
+       "VertexInsertionError::UndefinedEdge": "EUndefinedEdge"}
+UNLINK = {"1": "one_unlink_core", "2": "two_unlink_core"}
 LINK = {"1": "one_link_core", "2": "two_link_core"}
 SEW = {("sew", "1"): "one_sew n ks", ("sew", "2"): "two_sew n ks", ("unsew", "1"): "one_unsew n ks", ("unsew", "2"): "two_unsew n ks"}
 
@@ -119,35 +121,60 @@ def split_stmts(body):
 
 
 def fn_parts(src, name):
+    """-> ([(rust name, kind)], body) ; kind: 'dart' | ('pair',) | 'optsc'.  The receiver and the transaction may come
+    in either order and under either pair of names (t, map) / (cmap, trans); the body is normalised to (map, t)."""
     m = re.search(r"pub fn %s\s*<[^>]*>\s*\(" % name, src)
     if not m:
         raise Fail("function %s not found" % name)
     j = match_close(src, m.end() - 1)
-    params = split_top(src[m.end():j])
-    if [norm(p) for p in params[:2]] != ["t: &mut Transaction", "map: &CMap2<T>"]:
-        raise Fail("%s: unexpected leading parameters %r" % (name, params[:2]))
-    names = []
+    params = [norm(re.sub(r"//[^\n]*", "", p)) for p in split_top(src[m.end():j])]
+    lead = params[:2]
+    if lead == ["t: &mut Transaction", "map: &CMap2<T>"]:
+        ren = False
+    elif lead == ["cmap: &CMap2<T>", "trans: &mut Transaction"]:
+        ren = True
+    else:
+        raise Fail("%s: unexpected leading parameters %r" % (name, lead))
+    specs = []
     for p in params[2:]:
-        p = norm(p)
         ma = re.fullmatch(r"\[([\w, ]+)\]: \[DartIdType; (\d+)\]", p)
         mb = re.fullmatch(r"(\w+): (EdgeIdType|DartIdType)", p)
+        mc = re.fullmatch(r"(\w+): \(DartIdType, DartIdType\)", p)
+        md = re.fullmatch(r"(\w+): Option<T>", p)
         if ma:
             ns = [x.strip() for x in ma.group(1).split(",")]
             if len(ns) != int(ma.group(2)):
                 raise Fail("%s: array pattern arity" % name)
-            names += ns
+            specs += [(x, "dart") for x in ns]
         elif mb:
-            names.append(mb.group(1))
+            specs.append((mb.group(1), "dart"))
+        elif mc:
+            specs.append((mc.group(1), "pair"))
+        elif md:
+            specs.append((md.group(1), "optsc"))
         else:
             raise Fail("%s: parameter outside the subset: %r" % (name, p))
     i = src.index("{", j)
-    return names, src[i + 1:match_close(src, i)]
+    body = src[i + 1:match_close(src, i)]
+    if ren:
+        if re.search(r"\bmap\b(?!_or)", body) or re.search(r"\bt\b", re.sub(r"\|t\|[^,;)]*[,;)]", "", body)):
+            pass  # closures use |t| ...: handled by exact-text patterns
+        body = re.sub(r"\bcmap\b", "map", body)
+        body = re.sub(r"\btrans\b", "t", body)
+    return specs, body
 
 
 class Tr:
-    def __init__(self, name, args):
+    def __init__(self, name, specs):
         self.name, self.n = name, 0
-        self.env = {a: (a, None) for a in args}      # rust name -> (coq term, anchor type or tuple of types)
+        self.env = {}                                # rust name -> (coq term, anchor type / tuple of types / tag)
+        for a, kind in specs:
+            if kind == "dart":
+                self.env[a] = (a, None)
+            elif kind == "pair":
+                self.env[a] = (None, ("pair", a + "_0", a + "_1"))
+            else:
+                self.env[a] = (a, "optsc")
 
     def fresh(self, hint):
         self.n += 1
@@ -170,6 +197,9 @@ class Tr:
             return "(v_avg %s %s)" % (self.val(m.group(1), env)[0], self.val(m.group(2), env)[0]), None
         if x in env:
             return env[x]
+        m = re.fullmatch(r"(\w+)\.(\d)", x)
+        if m and m.group(1) in env and isinstance(env[m.group(1)][1], tuple) and env[m.group(1)][1][0] == "pair":
+            return env[m.group(1)][1][1 + int(m.group(2))], None
         self.bad("value", x)
 
     # ---- effectful expressions `...?`  -> (program text, anchor type of the result)
@@ -200,6 +230,9 @@ class Tr:
         m = re.fullmatch(r"map\.link::<(\d)>\(t, (\w+), (\w+)\)", c)
         if m and m.group(1) in LINK:
             return "%s %s %s" % (LINK[m.group(1)], self.val(m.group(2), env)[0], self.val(m.group(3), env)[0]), True
+        m = re.fullmatch(r"map\.unlink::<(\d)>\(t, (\w+)\)", c)
+        if m and m.group(1) in UNLINK:
+            return "%s %s" % (UNLINK[m.group(1)], self.val(m.group(2), env)[0]), True
         m = re.fullmatch(r"map\.(sew|unsew)::<(\d)>\(t, (\w+)(?:, (\w+))?\)", c)
         if m and (m.group(1), m.group(2)) in SEW:
             if (m.group(1) == "sew") != (m.group(4) is not None):
@@ -209,6 +242,13 @@ class Tr:
         m = re.fullmatch(r"map\.write_vertex\(t, (\w+), (\w+)\)", c)
         if m:
             return "write_vertex %s %s" % (self.val(m.group(1), env)[0], self.val(m.group(2), env)[0]), True
+        # midpoint_vertex.map_or(average(v1, v2), |t| v1 + seg * t)  with  seg = v2 - v1   ->   new_vertex v1 v2 t
+        m = re.fullmatch(r"map\.write_vertex\( ?t, (\w+), (\w+)\.map_or\(Vertex2::average\(&(\w+), &(\w+)\), \|t\| (\w+) \+ (\w+) \* t\),? ?\)", c)
+        if m:
+            vid, opt, a, b, a2, seg = m.groups()
+            if a2 != a or env.get(seg, (None, None))[1] != ("seg", a, b) or env.get(opt, (None, None))[1] != "optsc":
+                self.bad("interpolation", c)
+            return "write_vertex %s (new_vertex %s %s %s)" % (self.val(vid, env)[0], self.val(a, env)[0], self.val(b, env)[0], env[opt][0]), True
         m = re.fullmatch(r"map\.write_attribute\(t, (\w+), (.+)\)", c)
         if m:
             v, ty = self.val(m.group(2), env)
@@ -270,7 +310,7 @@ class Tr:
             if rest:
                 self.bad("Ok(()) before the end", s)
             return "Ret tt"
-        m = re.fullmatch(r"try_or_coerce!\((.+), (\w+)\)", s)
+        m = re.fullmatch(r"try_or_coerce!\( ?(.+?),? (\w+) ?\)", s)
         if m:
             c, u = self.call(m.group(1), env)
             return then(c, u)
@@ -330,6 +370,69 @@ class Tr:
             env2[m.group(1)] = self.val(m.group(6), env2)
             return ("%s <- %s ;;\n  %s <- %s ;;\n  match %s with\n  | Some %s =>\n  match %s with\n  | Some %s =>\n  %s\n  | None => Retry\n  end\n  | None => Retry\n  end"
                     % (o1, e1, o2, e2, o1, a, o2, b, self.stmts(rest, env2)))
+        # is_some_and on the optional position
+        m = re.fullmatch(r"if (\w+)\.is_some_and\(\|t\| \(t >= T::one\(\)\) \| \(t <= T::zero\(\)\)\) \{ abort\(([\w:]+)\)\?; \}", s)
+        if m and env.get(m.group(1), (None, None))[1] == "optsc" and m.group(2) in ERR:
+            o = env[m.group(1)][0]
+            return ("if match %s with Some t0 => negb (sc_in_unit t0) | None => false end then Fail %s else\n  %s"
+                    % (o, ERR[m.group(2)], self.stmts(rest, env)))
+        # spare dart checks: `A == NULL || !is_free(A)?`  and  `B != NULL && (A == NULL || !is_free(A)?)`
+        m = re.fullmatch(r"if ([\w.]+) == NULL_DART_ID \|\| !is_free_transac\(map, t, ([\w.]+)\)\? \{ abort\(VertexInsertionError::InvalidDarts\( ?\"[^\"]*\",? ?\)\)\?; \}", s)
+        if m and m.group(1) == m.group(2):
+            a_ = self.val(m.group(1), env)[0]
+            f = self.fresh("f")
+            return ("%s <- (if %s =? 0 then Ret false else is_free_atomic %s) ;;\n  if negb %s then Fail EInvalidDarts else\n  %s"
+                    % (f, a_, a_, f, self.stmts(rest, env)))
+        m = re.fullmatch(r"if (\w+) != NULL_DART_ID && \(([\w.]+) == NULL_DART_ID \|\| !is_free_transac\(map, t, ([\w.]+)\)\?\) \{ abort\(VertexInsertionError::InvalidDarts\( ?\"[^\"]*\",? ?\)\)\?; \}", s)
+        if m and m.group(2) == m.group(3):
+            b_ = self.val(m.group(1), env)[0]
+            a_ = self.val(m.group(2), env)[0]
+            f = self.fresh("f")
+            return ("%s <- (if %s =? 0 then Ret true else if %s =? 0 then Ret false else is_free_atomic %s) ;;\n  if negb %s then Fail EInvalidDarts else\n  %s"
+                    % (f, b_, a_, a_, f, self.stmts(rest, env)))
+        # let-else on two coordinate reads
+        m = re.fullmatch(r"let \(Some\((\w+)\), Some\((\w+)\)\) = \( ?(.+\?), (.+\?),? ?\) else \{ abort\(([\w:]+)\)\? \}", s)
+        if m and m.group(5) in ERR:
+            o1, o2 = self.fresh("ov"), self.fresh("ov")
+            a_, b_ = self.fresh(m.group(1)), self.fresh(m.group(2))
+            e1, e2 = self.eff(m.group(3), env)[0], self.eff(m.group(4), env)[0]
+            env2 = dict(env)
+            env2[m.group(1)], env2[m.group(2)] = (a_, None), (b_, None)
+            er = ERR[m.group(5)]
+            return ("%s <- %s ;;\n  %s <- %s ;;\n  match %s with\n  | Some %s =>\n  match %s with\n  | Some %s =>\n  %s\n  | None => Fail %s\n  end\n  | None => Fail %s\n  end"
+                    % (o1, e1, o2, e2, o1, a_, o2, b_, self.stmts(rest, env2), er, er))
+        # conditional core: if X != NULL { try_or_coerce!(CALL, E); }
+        m = re.fullmatch(r"if (\w+) != NULL_DART_ID \{ try_or_coerce!\( ?(.+?),? (\w+) ?\); \}", s)
+        if m:
+            c_, u = self.call(m.group(2), env)
+            return then("(if negb (%s =? 0) then %s else Ret tt)" % (self.val(m.group(1), env)[0], c_))
+        # two-branch tail: if X == NULL { B1 } else { B2 }
+        m = re.match(r"if (\w+) == NULL_DART_ID \{", s)
+        if m and not rest:
+            c1 = match_close(s, m.end() - 1)
+            after = s[c1 + 1:].strip()
+            me = re.fullmatch(r"else \{(.*)\}", after)
+            if me:
+                b1 = self.stmts(split_stmts(s[m.end():c1]), env)
+                b2 = self.stmts(split_stmts(me.group(1)), env)
+                return "if %s =? 0 then\n  %s\n  else\n  %s" % (self.val(m.group(1), env)[0], b1, b2)
+        # pure lets of this kernel
+        m = re.fullmatch(r"let (\w+) = (\w+) - (\w+)", s)
+        if m:
+            env = dict(env)
+            env[m.group(1)] = (None, ("seg", m.group(3), m.group(2)))
+            return self.stmts(rest, env)
+        m = re.fullmatch(r"let \((\w+), (\w+)\) = (\w+)", s)
+        if m and m.group(3) in env and isinstance(env[m.group(3)][1], tuple) and env[m.group(3)][1][0] == "pair":
+            env = dict(env)
+            env[m.group(1)] = (env[m.group(3)][1][1], None)
+            env[m.group(2)] = (env[m.group(3)][1][2], None)
+            return self.stmts(rest, env)
+        m = re.fullmatch(r"let (\w+) = ([\w.]+)", s)
+        if m:
+            env = dict(env)
+            env[m.group(1)] = self.val(m.group(2), env)
+            return self.stmts(rest, env)
         m = re.fullmatch(r"let (\w+) = (.+\?)", s)
         if m:
             v = self.fresh(m.group(1))
@@ -405,6 +508,7 @@ TARGETS = [
     ("cut_outer_edge", "/repo/honeycomb-kernels/src/remeshing/cut.rs", "gen_cut_outer_edge"),
     ("cut_inner_edge", "/repo/honeycomb-kernels/src/remeshing/cut.rs", "gen_cut_inner_edge"),
     ("swap_edge", "/repo/honeycomb-kernels/src/remeshing/swap.rs", "gen_swap_edge"),
+    ("insert_vertex_on_edge", "/repo/honeycomb-kernels/src/cell_insertion/vertices.rs", "gen_insert_vertex_on_edge"),
 ]
 OUT = "/verif/coq/theories/Map2/GenKern.v"
 
@@ -413,10 +517,14 @@ def main():
     defs = []
     for f, path, gname in TARGETS:
         src = strip_comments(open(path).read())
-        args, body = fn_parts(src, f)
-        t = Tr(f, args)
+        specs, body = fn_parts(src, f)
+        t = Tr(f, specs)
         text = t.stmts(split_stmts(body), t.env)
-        defs.append("Definition %s (n : N) (ks : kinds) (%s : N) : prog unit :=\n  %s." % (gname, " ".join(args), text))
+        darts = []
+        for a_, kind in specs:
+            darts += [a_] if kind == "dart" else ([a_ + "_0", a_ + "_1"] if kind == "pair" else [])
+        opts = "".join(" (%s : option Sc)" % a_ for a_, kind in specs if kind == "optsc")
+        defs.append("Definition %s (n : N) (ks : kinds) (%s : N)%s : prog unit :=\n  %s." % (gname, " ".join(darts), opts, text))
     text = ("(** GENERATED by tools/tr_kern.py from %s -- do not edit. *)\n"
             "From Coq Require Import List NArith Bool.\nFrom HC Require Import Stm.Prog Map2.Ops2 Map2.Kern2.\nOpen Scope N_scope.\n\n"
             "Section GenKern.\nContext `{Sig}.\n\n%s\n\nEnd GenKern.\n") % (", ".join(sorted(set(p for _, p, _ in TARGETS))), "\n\n".join(defs))
